@@ -45,6 +45,14 @@ func (err *TaskRunError) Code() int {
 	return CodeTaskRunError
 }
 
+// Unwrap gives access to the error of the failing command: a task run error
+// may wrap the task run error of a task it called (a deduplicated task that a
+// directly called task executed, observed by another one), and the exit
+// status of the command must still be found behind both
+func (err *TaskRunError) Unwrap() error {
+	return err.Err
+}
+
 func (err *TaskRunError) TaskExitCode() int {
 	if c, ok := interp.IsExitStatus(err.Err); ok {
 		return int(c)
